@@ -198,7 +198,7 @@ structure DynHdr.Ok (h : DynHdr) : Prop where
   eob     : 256 < h.litLens.size ∧ 1 ≤ h.litLens.getD 256 0
 
 def encDynamic (final : Bool) (h : DynHdr) (toks : List SymTok) : EncBlock :=
-  { bits := bitsLE ((if final then 1 else 0) + 4) 3 ++ (bitsLE h.hlit 5 ++ (bitsLE h.hdist 5 ++ (bitsLE (h.cvals.length - 4) 4 ++
+  { bits := fun _ => bitsLE ((if final then 1 else 0) + 4) 3 ++ (bitsLE h.hlit 5 ++ (bitsLE h.hdist 5 ++ (bitsLE (h.cvals.length - 4) 4 ++
       (clenFieldBits h.cvals ++ (encCSyms h.clens h.csyms ++ encToks h.litLens h.distLens toks))))),
     final := final, toks := toks, litLens := h.litLens, distLens := h.distLens }
 
@@ -257,7 +257,7 @@ theorem encDynamic_decodes (pre : Array UInt8) (maxDist : Nat) (final : Bool) (h
   rw [h6']
   dsimp only
   have e : pos + 3 + 5 + 5 + 4 + 3 * h.cvals.length + (encCSyms h.clens h.csyms).length + (encToks h.litLens h.distLens toks).length =
-      pos + (encDynamic final h toks).bits.length := by
+      pos + ((encDynamic final h toks).bits pos).length := by
     simp only [encDynamic, List.length_append, bitsLE_length, clenFieldBits_length]; omega
   rw [e]
   refine ⟨_, rfl, ?_⟩
